@@ -583,6 +583,24 @@ fn scopes_cases(r: &mut Rng, n: usize) -> Vec<Case> {
         }
         out.push(scopes_case(&lets, &decls, &fors));
     }
+    // enumerate over entries that are themselves tuples (zip results, enumerate results): the element is `(entry, position)` - deterministic
+    {
+        let arr = |xs: &[i64]| LE::Lit(LV::Arr(xs.iter().map(|x| LV::I(*x)).collect()));
+        let strs = LE::Lit(LV::Arr(vec![LV::S("a".into()), LV::S("b".into()), LV::S("cd".into())]));
+        let lets: Vec<(String, LE)> = vec![("W".into(), arr(&[5, 6, 7])), ("K".into(), arr(&[8, 4, 3])), ("S".into(), strs)];
+        let call = |f: &str, a: Vec<LE>| LE::Call(f.into(), a);
+        let var = |n: &str| LE::Var(n.into());
+        let srcs = vec![call("zip", vec![var("W"), var("K")]), call("zip", vec![var("K"), var("S"), var("W")]), call("enumerate", vec![var("S")]), call("zip", vec![var("S"), var("K")])];
+        for src in srcs {
+            for (vars, idx) in [(vec!["_", "i"], vec![var("i")]), (vec!["e", "i"], vec![var("i"), LE::Bin("add", Box::new(var("i")), Box::new(LE::Lit(LV::I(1))))]), (vec!["a", "i", "j"], vec![var("i")]), (vec!["p"], vec![LE::Lit(LV::I(0))])] {
+                let it = LIt { vars: vars.iter().map(|v| v.to_string()).collect(), tuple: true, over: call("enumerate", vec![src.clone()]) };
+                let inner = LIt { vars: vec!["x".into(), "y".into()], tuple: true, over: src.clone() };
+                let mut c = scopes_case(&lets, &[], &[LFor { its: vec![it], idx: idx.clone() }, LFor { its: vec![inner], idx: vec![var("y")] }]);
+                c.tags.push("scopes:enumerate-of-tuples".into());
+                out.push(c);
+            }
+        }
+    }
     // the boundaries of the declared types, deterministically
     let lit = |i: i64| LE::Lit(LV::I(i));
     let num = |x: f64| LE::Lit(LV::F(x));
